@@ -444,7 +444,7 @@ func checkV1Fields(ts uint64, cseq uint16, node [6]byte, viaSetters bool, tag st
 
 func checkV2Fields(ldn uint32, ts uint64, clock, ld uint8, node [6]byte, viaSetters bool, tag string) {
 	ts28 := ts &^ 0xFFFFFFFF
-	cs := map[string]any{"local_domain_number": ldn, "time": ts28, "clock": clock, "local_domain": ld, "node": mon.FullHex(node[:]), "via_setters": viaSetters}
+	cs := map[string]any{"local_domain_number": ldn, "time": ts, "time_emitted": ts28, "clock": clock, "local_domain": ld, "node": mon.FullHex(node[:]), "via_setters": viaSetters}
 	guard("uuid_v2.fields", cs, func() {
 		var u uuid_v2.UUIDv2
 		u.UUID.Variant = 0x8
@@ -455,15 +455,17 @@ func checkV2Fields(ldn uint32, ts uint64, clock, ld uint8, node [6]byte, viaSett
 			if err := u.SetNodeID(node[:]); err != nil {
 				r.Violation("uuid_v2.SetNodeID:accept", fmt.Sprintf("SetNodeID(%x): %v", node, err), cs)
 			}
-			wsec, wnsec := refInstant(ts28)
+			// the whole 60-bit reading of the clock is set; the low 32 bits have no place in a
+			// version-2 UUID (the local domain number takes it) and must simply not be emitted
+			wsec, wnsec := refInstant(ts)
 			u.SetTime(time.Unix(wsec, wnsec))
 			ev(1)
-			if u.Time != ts28 {
-				r.Violation("uuid_v2.SetTime:value", fmt.Sprintf("SetTime(unix %d.%09d): Time=%d want %d", wsec, wnsec, u.Time, ts28), cs)
-				u.Time = ts28
+			if u.Time != ts {
+				r.Violation("uuid_v2.SetTime:value", fmt.Sprintf("SetTime(unix %d.%09d): Time=%d want %d", wsec, wnsec, u.Time, ts), cs)
+				u.Time = ts
 			}
 		} else {
-			u.LocalDomainNumber, u.Time, u.Clock, u.LocalDomain, u.NodeID = ldn, ts28, clock, ld, node
+			u.LocalDomainNumber, u.Time, u.Clock, u.LocalDomain, u.NodeID = ldn, ts, clock, ld, node
 		}
 		m, err := u.Marshal()
 		ev(1)
@@ -780,7 +782,14 @@ func fieldAssignments() {
 			c &= 0x0FFF
 		}
 		checkV1Fields(ts, c, randNode(rng), k%2 == 0, "r")
-		checkV2Fields(rng.Uint32(), ts, uint8(rng.UintN(16)), uint8(rng.UintN(256)), randNode(rng), k%2 == 1, "r")
+		ldn := rng.Uint32()
+		switch k % 7 {
+		case 0:
+			ldn = 0 // uid/gid 0 is a local domain number like any other
+		case 1:
+			ldn = uint32(rng.UintN(70000))
+		}
+		checkV2Fields(ldn, ts, uint8(rng.UintN(16)), uint8(rng.UintN(256)), randNode(rng), k%2 == 1, "r")
 		var d [15]byte
 		for i := range d {
 			d[i] = byte(rng.UintN(256))
@@ -810,7 +819,7 @@ func main() {
 		"RFC 4122 field extraction (60-bit timestamp, 14-bit clock sequence, node) is demanded of UUIDv1 for variant-10x values; for other variants the clock sequence width is undefined and either reading is accepted",
 		"UUIDv2 is judged on the fields the library carries (32-bit local id, upper 28 timestamp bits, 4-bit clock, 8-bit local domain, node); DCE's 6-bit clock sequence is not covered by the property statement (counted as an observation)",
 		"field widths: v1 Time 60 bits, ClockSeq 14 bits; GUID.E 48 bits; values beyond the widths are not generated",
-		"text input is the canonical form of each format; inputs with misplaced hyphens or surrounding blanks are not judged",
+		"text input is the canonical form of each format; near-valid texts (moved separators, replaced/inserted/deleted characters, other brackets, prefixes) are judged for guid.FromString only: what it accepts must format back to the text given, modulo letter case and surrounding white space; the direct FromFormatD/B/P parsers and uuid.FromString place no demand on separator positions (observed, not judged)",
 		"malformed text / short binary input must return an error; a panic there is counted but left to C07",
 		"math/big and time.Unix of the standard library are correct",
 	)
@@ -825,6 +834,7 @@ func main() {
 		}
 	}
 	refusals()
+	textMutations()
 	// NewGUID: library-generated values also round-trip
 	for i := 0; i < 1000; i++ {
 		g := guid.NewGUID()
@@ -839,7 +849,7 @@ func main() {
 	wg.Add(1)
 	go func() { defer wg.Done(); fieldAssignments() }()
 	wg.Add(1)
-	go func() { defer wg.Done(); stateMonitors() }() // state.go: held outputs, input scribble, receiver reuse, stale fields
+	go func() { defer wg.Done(); stateMonitors(); setterSequences() }() // state.go: held outputs, input scribble, receiver reuse, stale fields
 	n := r.Pick(50000, 1500000)
 	workers := 16
 	for w := 0; w < workers; w++ {
